@@ -113,6 +113,72 @@ def slotStep (s : St) (alt : Bool) (ts : List String) : St × String :=
           (st, s!"ok {if l.isEmpty then "-" else ",".intercalate l} {t'.number} {tipStr t'}")
         | .err => (st, s!"err {t'.number} {tipStr t'}")
     | _, _, _, _ => (s, "bad-op")
+  | ["freezestale", n0, thr, stop, start, ids] =>
+    -- round 6: a freeze whose pre-lock `self.number()` returned `n0` (see `freezeFrom`)
+    match sl.top, parseNat? n0, parseNat? thr, parseNat? start, parseNatList? ids with
+    | some t, some n0, some thr, some start, some ids =>
+      let get : Nat → Option Block := fun h =>
+        if h < start then none else
+        match ids[h - start]? with
+        | some 0 => none
+        | some id => blockOf s id
+        | none => none
+      let stopped : Option (Nat → Bool) :=
+        if stop = "-" then some (fun _ => false)
+        else if stop = "pre" then some (fun _ => true)
+        else (parseNat? stop).map fun k => fun n => decide (k < n ∧ n0 ≤ k)
+      match stopped with
+      | none => (s, "bad-op")
+      | some stopped =>
+        let (t', r) := freezeFrom c t n0 thr get stopped
+        let st := setSlot s alt { disk := t'.d, top := some t' }
+        match r with
+        | .ok frozen =>
+          let l := frozen.map fun (h, n, tx) => s!"{h}:{n}:{tx}"
+          (st, s!"ok {if l.isEmpty then "-" else ",".intercalate l} {t'.number} {tipStr t'}")
+        | .err => (st, s!"err {t'.number} {tipStr t'}")
+    | _, _, _, _, _ => (s, "bad-op")
+  | ["truncatestale", n0, i] =>
+    match sl.top, parseNat? n0, parseNat? i with
+    | some t, some n0, some i =>
+      match truncateFrom c t n0 i with
+      | some t' => (setSlot s alt { disk := t'.d, top := some t' }, s!"ok {t'.number} {tipStr t'}")
+      | none => (s, "err")
+    | _, _, _ => (s, "bad-op")
+  | ["race", thrA, startA, idsA, n0T, k, n0B, thrB, startB, idsB, order] =>
+    -- round 6: A = freeze; then T = truncateFrom n0T k and B = freezeFrom n0B in the observed order
+    match sl.top, [thrA, startA, n0T, k, n0B, thrB, startB].mapM parseNat?, parseNatList? idsA, parseNatList? idsB with
+    | some t, some [thrA, startA, n0T, k, n0B, thrB, startB], some idsA, some idsB =>
+      let getOf (start : Nat) (ids : List Nat) : Nat → Option Block := fun h =>
+        if h < start then none else
+        match ids[h - start]? with
+        | some 0 => none
+        | some id => blockOf s id
+        | none => none
+      let noStop : Nat → Bool := fun _ => false
+      let fmt : FreezeOut → String
+        | .ok frozen =>
+          let l := frozen.map fun (h, n, tx) => s!"{h}:{n}:{tx}"
+          s!"ok:{if l.isEmpty then "-" else ",".intercalate l}"
+        | .err => "err"
+      let (t1, rA) := freeze c t thrA (getOf startA idsA) noStop
+      let doT (x : Top) : Top × String :=
+        match truncateFrom c x n0T k with
+        | some y => (y, "ok")
+        | none => (x, "err")
+      let doB (x : Top) : Top × FreezeOut := freezeFrom c x n0B thrB (getOf startB idsB) noStop
+      let (t3, aT, rB) :=
+        if order = "TB" then
+          let (t2, aT) := doT t1
+          let (t3, rB) := doB t2
+          (t3, aT, rB)
+        else
+          let (t2, rB) := doB t1
+          let (t3, aT) := doT t2
+          (t3, aT, rB)
+      (setSlot s alt { disk := t3.d, top := some t3 },
+        s!"A={fmt rA} T={aT} B={fmt rB} n={t3.number} tip={tipStr t3}")
+    | _, _, _, _ => (s, "bad-op")
   | ["retrieve", i] =>
     match sl.top, parseNat? i with
     | some t, some i =>
